@@ -70,8 +70,12 @@ class C20(Harness):
                 ctx.assume((v >= 1) & (v <= 2))
             if k == "fh-differs-from-fit":
                 ctx.assume(inp["fh1"][0] < inp["fh1"][1])
-                ctx.assume(inp["fh2"][0] < inp["fh2"][1])
                 inp["fh1"] = [int(v) for v in inp["fh1"]]
+                # the horizon at predict: one or two steps (a strict subset of the fitted horizon counts as different)
+                if bool(ctx.fresh_bool("single_step")):
+                    inp["fh2"] = inp["fh2"][:1]
+                else:
+                    ctx.assume(inp["fh2"][0] < inp["fh2"][1])
         elif k == "fh-empty-fractional-type":
             r = ctx.fresh_real("frac")
             ctx.assume(~r.is_integer())
@@ -343,7 +347,7 @@ class C20(Harness):
                 verdict(name, res, not name.startswith("ok:"))
         elif k == "fh-differs-from-fit":
             a, b = inp["fh1"], inp["fh2"]
-            differs = (b[0] != a[0]) | (b[1] != a[1])
+            differs = True if len(b) != len(a) else ((b[0] != a[0]) | (b[1] != a[1]))
             for name, res in out.items():
                 verdict(name, res, differs)
         elif k == "int-params":
